@@ -1,7 +1,7 @@
 \* spec mutation (EarlierMode = "later"  GateTiers = TRUE  MinGrace = 1  DndMode = "honour"  ThresholdSlack = 0): TLC must reject it (vacuity guard)
 CONSTANTS Pods = {"p1", "p2"}  Archetypes <- ArchDl  TGPs <- BoolT  TGP = 3
   MaxNow = 4  MaxFaults = 0  MaxRestarts = 0  MaxDlChanges = 1  MaxLen = 1000  MaxSpont = 99
-  EarlierMode = "later"  GateTiers = TRUE  MinGrace = 1  DndMode = "honour"  ThresholdSlack = 0  DropMode = "keep"
+  EarlierMode = "later"  GateTiers = TRUE  MinGrace = 1  DndMode = "honour"  ThresholdSlack = 0  DropMode = "keep"  SplitMode = "waiting"
 SPECIFICATION Spec
 VIEW view
 INVARIANTS TypeOK Inv_C10_Guards
